@@ -17,7 +17,7 @@ func init() {
 	register(&Property{
 		ID: "C08",
 		Explanation: "Decided: (R1) the supervising actor consults SupervisionStrategy.Supervise exactly once per failure, on its own strategy if set, else the system's; (R2) the one-for-one strategy returns the failing child, the one-for-all strategy the supervisor's children, and the supervision context's accessors return exactly those sets; " +
-			"(R3) every message told while supervising goes to a target, a chained context's target, or the supervisor's parent; (R4) restart / stop / resume / escalate bodies are entered under their own predicate, each does what the directive says, and every decision value enters one of them (unknown ⇒ escalate); " +
+			"(R3) every message told while supervising goes to a target, a chained context's target, or the supervisor's parent; (R4) restart / stop / resume / escalate bodies are entered under their own predicate, each does what the directive says, and every decision value enters one of them (unknown ⇒ escalate); an escalation is told to the parent only where there is one — at the root it ends in the system default, the targets are stopped (F42); " +
 			"(R5) a failure pauses the failing actor's mailbox before its parent is told, and the failure entry is reachable only from the recover block; (R6) no supervision for a failure while handling OnKill, nor OnKilled when the actor is not running or the notice names itself. " +
 			"(R7) the targets recorded in the supervision context (which later resume broadcasts walk) are exactly the strategy's targets that the supervisor paused; (R8) the restart marker, which the termination pipeline trusts to choose between clean-up and re-initialisation, is stored only under the success edge of CAS(state, running→killing): a Restart reaching an actor that is already stopping leaves no trace and cannot revive it; (R9 = C05.R4) the restart step installs the new instance before resetting the behaviour stack to its OnReceive. (R7, addition) apply-decision records the handed targets on every path and before any tell, broadcast, pause or escalation; (R10 = C01.R6) the suspension is effective: a paused mailbox hands no user message over. (R11 = C01.R2) a decision sent to a suspended child is never stranded by the consumer's exit re-check; (R12 = C03.R2) a stopping actor runs no user message, so it cannot fail and be supervised again while it stops. (R13 = the removal-order check of C06.R6) the child table that target selection reads holds no entry of a dead child when that child's death handler runs. NOT decided: the run-time effect of each (decision × strategy × failure site) cell.",
 		Rules: []Rule{
@@ -528,6 +528,24 @@ func c08Dispatch(p *Program, r *Report) {
 		}
 	}
 	r.Check(ok && len(rT) > 0, "restart decision sends a restart message to every target", firstPos(g, restartTells), "restart tells are dominated by the IsRestart edge, one per target "+why)
+	// the escalation ends at the top: where the supervisor has no parent the targets are stopped (kills under the parent == nil edge)
+	topE, hasParentE := map[edge]bool{}, map[edge]bool{}
+	for _, ef := range p.edgeFacts(g) {
+		if ef.Field == lc.ParentF && ef.Fact.IsNil {
+			if ef.Fact.Op == token.EQL {
+				topE[ef.E] = true
+			} else {
+				hasParentE[ef.E] = true
+			}
+		}
+	}
+	topKills := map[int]bool{}
+	for n := range kills {
+		if len(topE) > 0 && g.DominatedByEdges(n, topE) && !g.DominatedByEdges(n, sT) {
+			topKills[n] = true
+			delete(kills, n)
+		}
+	}
 	ok, why = g.loopExactlyOnce(kills)
 	for n := range kills {
 		if !g.DominatedByEdges(n, sT) {
@@ -598,6 +616,33 @@ func c08Dispatch(p *Program, r *Report) {
 		}
 		_, _, _ = rF, sF, uF
 	}
+	// … and only where there is a parent: the root's "parent" resolves to the root's own mailbox, an escalation told there is
+	// supervised by the root again and again (F42). On the parent == nil edge every path stops the targets instead.
+	okTop := len(hasParentE) > 0 && len(topE) > 0 && len(topKills) > 0
+	for n := range escalTells {
+		if !g.DominatedByEdges(n, hasParentE) {
+			okTop = false
+		}
+	}
+	if okTop {
+		once, _ := g.loopExactlyOnce(topKills)
+		okTop = once
+		for e := range topE {
+			// from the top edge no path reaches the escalation tell or the pause
+			if anyOf(g.Reach([]int{e.to}, nil, nil), union(escalTells, pause)) {
+				okTop = false
+			}
+		}
+		for n := range topKills {
+			c := callOf(g.Nodes[n])
+			if len(c.Args) > 2 {
+				if b, isC := constBool(c.Args[2]); !isC || b {
+					okTop = false
+				}
+			}
+		}
+	}
+	r.Check(okTop, "an escalation at the top ends in the system default: the targets are stopped", firstPos(g, topKills), "the escalation tell is dominated by the parent != nil edge; on the parent == nil edge every target is killed once (immediately), nothing is told to the (absent) parent and the root does not pause itself")
 	r.Check(ok, "escalation pauses the supervisor and hands a chained context to its parent", firstPos(g, escalTells), "when the decision is none of restart/stop/resume: Pause() own mailbox, new supervision context linked to the current one, told to the parent as a system message")
 	c08Exhaustive(p, r)
 }
@@ -623,6 +668,12 @@ func c08Exhaustive(p *Program, r *Report) {
 	for _, pred := range []string{"IsRestart", "IsStop", "IsResume", "IsEscalate"} {
 		t, _ := decisionEdges(g, pred)
 		dT = mergeEdges(dT, t)
+	}
+	// the top-of-the-tree form of the escalation (no parent: stop the targets) is a body too
+	for _, ef := range p.edgeFacts(g) {
+		if ef.Field == lc.ParentF && ef.Fact.IsNil && ef.Fact.Op == token.EQL {
+			dT[ef.E] = true
+		}
 	}
 	reach := g.Reach(g.entry(), eff, mergeEdges(dT, g.nilArgEdges()))
 	r.Check(!anyIn(reach, g.Exits), "every decision value takes a branch", s.Apply.Pos(),
